@@ -45,8 +45,7 @@ def contracts(reg):
     from contracts import C07, readfile
     for c in C07.contracts(reg):
         if c.target.startswith(C07.ROUTER) or c.target.startswith(C07.MIME):
-            c.assumed = True
-            c.note = "verified by the C07 pack"
+            c.note = "C07's functional contract, verified here on the real body (round 7: was assumed)"
             out.append(c)
     out.append(FnContract(
         target=f"{readfile.INIT}::read_file",
@@ -72,6 +71,8 @@ def contracts(reg):
         note="for well-formed argv (after argparse accepted the arguments)",
     ))
     install_cli(reg)
+    from contracts import c01_parser
+    out.append(c01_parser.contract())
     return out
 
 
@@ -186,16 +187,17 @@ def install_cli(reg):
     reg.ext_models["json.dumps"] = m_json_dumps
     reg.ext_models["json.dump"] = m_json_dump
     reg.method_models[("ArgParser", "parse_known_args")] = m_parse
-    from pyvc.contracts import FnContract as _F
-    reg.add(_F(target="sharepoint2text/cli.py::_build_parser", params=[], assumed=True,
-               result_maker=lambda ex, st, ctx: VExt("ArgParser"), note="argparse parser construction (assumed total)"))
+    # `_build_parser` itself is under a verified contract since round 7 (contracts/c01_parser.py; it was an assumed total constructor)
+    from contracts import c01_parser
+    c01_parser.install(reg)
 
 
 # ------------------------------------------------------------ termination --
 TERM_READERS = ("_read_byte", "_read_bytes", "_read_number", "_read_uint32", "_read_uint64", "read")
 # loops whose termination argument is outside the rules of pyvc/term.py: reported as NOT decided (never counted as proved)
 TERM_UNPROVEN = set()
-# loops proved by the advance rule: index stores are `+= k` or the next index returned by a contracted callee
+# loops proved by the advance rule: index stores are `+= k` or the next index returned by a contracted callee (the callee's postcondition
+# `None or next index beyond the first argument` is an obligation of the same run: ..._extract_word_date_header/ensures#None-or-next-index-beyond-first-argument)
 TERM_ADVANCERS = {("pdf_extractor.py", "_TableExtractor._extract", 0): {"_extract_word_date_header"}}
 
 
@@ -339,14 +341,23 @@ EXTRA = EXTRA + [regex_backtracking]
 from contracts import c01_attach as _att  # noqa: E402
 
 EXTRA = EXTRA + list(_att.EXTRA)
+from contracts import c01_recursion as _rec  # noqa: E402
+
+EXTRA = EXTRA + [_rec.recursion]
+from contracts import c01_parser as _prs  # noqa: E402
+
+EXTRA = EXTRA + [_prs.validate_model]
 
 BOUNDED = ["regex patterns whose position automaton has EDA are decided by a BOUNDED pumping experiment on CPython's matcher (decreases#regex-eda-pump-*: "
            "k <= 100 pumps, every witness cycle x 13 suffixes x the match modes the module uses; pristine: rtf_extractor._RE_PICT); polynomial backtracking of high degree is not decided",
-           "termination NOT decided for: pdf_extractor._TableExtractor._extract while-0 (125-line line classifier, more than 4000 paths per iteration; "
-           "its index advances by `idx += 1` or to the `next_idx` returned by _extract_word_date_header, which is not under contract); `for` loops: "
-           "decreases#for-loops-finite shows per file that no loop iterates an infinite constructor or grows its own iterable, finiteness of third-party "
-           "iterables (ElementTree, zipfile, xlrd, olefile, pypdf) is assumed; recursion: CPython bounds the depth (RecursionError is an Exception subclass, "
-           "which the exceptional-postcondition obligations already admit at every call), structural descent over finite trees (TREE-FINITE) is not discharged"]
+           "termination, what is NOT discharged: `for` loops -- decreases#for-loops-finite shows per file that no loop iterates an infinite constructor or grows its own "
+           "iterable; finiteness of third-party iterables (ElementTree, zipfile, xlrd, olefile, pypdf) is assumed.  Recursion (round 7): every directly or mutually "
+           "recursive function has a DISCHARGED structural-descent obligation (decreases#recursion-descends-into-a-proper-part / #mutual-recursion-...: each recursive "
+           "call passes a proper part of the caller's argument); finiteness and acyclicity of the trees handed in (TREE-FINITE) stay assumed.  One function is NOT a "
+           "structural descent and is only bounded by the interpreter: pdf_extractor._color_space_name follows `get_object()` of a PDF reference, which may resolve to "
+           "its own container (linear recursion: at most sys.getrecursionlimit() frames, then a RecursionError the callers' exceptional postconditions admit) -- bounded-ok, not proved",
+           "cli._build_parser is verified against an ASSUMED MODEL of argparse's declaration checks; the model is validated natively on a finite case list "
+           "(cli.py::argparse/model-validation#...BOUNDED: 19 cases), never counted as proved"]
 
 EXECUTOR_KW = {}
 for _rel, _fn in registered_extractors():
@@ -354,6 +365,7 @@ for _rel, _fn in registered_extractors():
 EXECUTOR_KW["sharepoint2text/__init__.py::read_file"] = {"abstract": True, "inline_calls": False, "inline_local": True}
 EXECUTOR_KW["sharepoint2text/parsing/extractors/archive_extractor.py::_process_archive_entry"] = {"abstract": True, "inline_calls": False, "inline_local": True}
 EXECUTOR_KW["sharepoint2text/cli.py::main"] = {"abstract": True, "inline_calls": False, "inline_local": True}
+EXECUTOR_KW["sharepoint2text/cli.py::_build_parser"] = {"abstract": True, "inline_calls": False}
 from contracts import readfile as _rf  # noqa: E402
 from contracts import c01_logging as _lg  # noqa: E402
 
@@ -365,8 +377,17 @@ class C01Executor(_lg.LoggingMixin, _rf.ReadFileExecutor):
 EXECUTOR = C01Executor
 
 TRUSTED = ["third-party parsers terminate (their exceptions are covered by EXC-ANY)",
-           "CPython's `re` explores at most the paths of the pattern's position automaton (so: polynomially many for a pattern without EDA)"]
-ASSUMED_MODELS = ["time.perf_counter/time.time: total, return a float"]
+           "CPython's `re` explores at most the paths of the pattern's position automaton (so: polynomially many for a pattern without EDA)",
+           "TREE-FINITE: the trees the recursive functions walk (ElementTree / html node trees built by a parser from a finite document, JSON-like values, dataclass "
+           "instances) are finite and acyclic, and iteration / subscript / field access / find / findall / values / items yield strict parts of them",
+           # round 7: the router / mime functions are verified here on their real bodies, with the models of the C07 pack
+           "os.path.splitext axioms A1-A3, mimetypes.guess_type total and deterministic, importlib.import_module succeeds for registry modules (router contracts, shared with C07)",
+           "argparse: ArgumentParser(**kw) is total for keywords of its signature; add_argument raises exactly on the declaration errors modelled in contracts/c01_parser.py; "
+           "parse_known_args raises only SystemExit when every `type=` converter fails with TypeError / ValueError only"]
+ASSUMED_MODELS = ["time.perf_counter/time.time: total, return a float",
+                  "os.path.splitext (uninterpreted, axioms A1-A3); mimetypes.guess_type (uninterpreted: any MIME database); str.lower (uninterpreted, idempotent); "
+                  "importlib.import_module + getattr (function identity = (module, name))",
+                  "argparse.ArgumentParser / add_argument / add_mutually_exclusive_group / add_argument_group (declaration checks of CPython 3.9-3.13; validated natively, bounded)"]
 ASSUMPTIONS = ["EXC-ANY: un-contracted calls may raise any Exception subclass (BaseException-only classes such as KeyboardInterrupt, and MemoryError/RecursionError from resource exhaustion, are not modelled: PY-MEM)",
                "PY-GEN: generator consumer may stop after any prefix", "logger calls dropped (PY-LOG)",
                "PY-LOGGING (cli.main): a log record of any logger reaches stderr unless the ROOT logger has a handler (the code adds a quiet one, or the embedding "
@@ -375,5 +396,7 @@ ASSUMPTIONS = ["EXC-ANY: un-contracted calls may raise any Exception subclass (B
 # `decreases#while-k` obligations are enumerated from the source (one per `while` found by pyvc.term.while_loops): a locked one may
 # disappear when the loop is no longer in the code, as long as the per-file scan obligation (`<file>::*/decreases#for-loops-finite`,
 # produced by the same run over the same file) is there -- the remaining and the new loops (a helper the loop moved into) get their own
-LOCK_FILE_COVERAGE = {"decreases#while-": "::*/decreases#for-loops-finite"}
+LOCK_FILE_COVERAGE = {"decreases#while-": "::*/decreases#for-loops-finite",
+                      # recursive functions are enumerated from the source too (contracts/c01_recursion.py): same rule, own scan obligation
+                      "decreases#recursion-": "::*/decreases#every-recursion-listed", "decreases#mutual-recursion-": "::*/decreases#every-recursion-listed"}
 REPLAY_UNKNOWN = True    # undecided / out-of-subset items are searched natively (replay) before being reported UNDECIDED
